@@ -430,6 +430,14 @@ func runHybridHistory(r *rand.Rand, o hybridOpts, t *Trace) *Case {
 					cfg.TextWeight = 0 // boundary: a modality switched off by weight still contributes its ids
 				}
 			}
+			if r.Intn(3) == 0 {
+				// the usual way to customise: take the default configuration and edit it -- the caller's copy is
+				// the caller's, later searches that rely on the defaults still get 1 / 1 / 60
+				base := comet.DefaultFusionConfig()
+				base.VectorWeight, base.TextWeight, base.K = cfg.VectorWeight, cfg.TextWeight, cfg.K
+				cfg = base
+				t.Stat("hybrid.config_from_default")
+			}
 			if o.nearTie && r.Intn(3) != 0 {
 				fk = 0
 				cfg = &comet.FusionConfig{VectorWeight: []float64{1e-9, 1e-12, 1e-7}[r.Intn(3)], TextWeight: 1, K: 60}
